@@ -301,6 +301,13 @@ def gen_multi_unit(sc, sidecar_path, repo):
     text = prelude + '\nverus! {\n// ---- specification (contracts/%s) ----\n%s\n// ---- extracted from /repo ----\n%s\n} // verus!\nfn main() {}\n' % (
         os.path.basename(sidecar_path), sc.get('spec', ''), '\n'.join(fns))
     twin_text = prelude + '\nverus! {\n%s\n%s\n} // verus!\nfn main() {}\n' % (sc.get('spec', ''), '\n'.join(twins))
+    # observers built inside an iterator adapter (`(0..n).map(move |_| { .. sctl.new_observer(..) })`) are only registered when the
+    # iterator is driven: the adapter must be collected eagerly (from_iter / collect) before the first inner_subscribe
+    for st_toks in rxprep.split_statements(body.kids):
+        if rxprep.find_calls(st_toks, 'new_observer'):
+            txt = re.sub(r'\s+', '', src[st_toks[0].start:st_toks[-1].end])
+            if '.map(' in txt and 'from_iter(' not in txt and '.collect' not in txt and not sc.get('allow_late_registration'):
+                late_registration = True
     definite = {'prepare_before_subscribe': (not late_registration, 'an upstream observer is registered with the controller only after another input has already been subscribed: an input that signals synchronously ends the subscription before the late observer exists, and that observer is never torn down')}
     if sc.get('subscribe_order'):
         # the receivers of the inner_subscribe calls, in textual order, e.g. ["trigger", "source"]: the gate must be listening before
